@@ -7,7 +7,7 @@ STATIC = ["Base/Syntax.v", "Model/PyNum.v", "Model/IR.v", "Model/VM.v", "Model/E
           "Proofs/LowerExprProofs.v", "Proofs/ElabExprProofs.v", "Proofs/ReturnExprProofs.v", "Proofs/CallAgreeProofs.v", "Proofs/ReturnExprExample.v", "Harness/FragLib.v",
           "Proofs/LowerStmtProofs.v", "Proofs/ElabStmtProofs.v", "Proofs/StraightLineProofs.v", "Proofs/StraightLineExample.v", "Harness/FragLib2.v", "Proofs/FlowLowerProofs.v", "Proofs/FlowFuncProofs.v", "Harness/FlowLib.v",
           "Proofs/FlowElabProofs.v", "Proofs/FlowTableProofs.v", "Proofs/FlowSimProofs.v", "Proofs/FlowSimExample.v", "Harness/FlowLib2.v",
-          "Proofs/LoopLowerProofs.v", "Proofs/LoopElabProofs.v", "Proofs/LoopSimProofs.v", "Proofs/LoopSimExample.v", "Harness/LoopLib.v"]
+          "Proofs/LoopLowerProofs.v", "Proofs/LoopElabProofs.v", "Proofs/LoopSimProofs.v", "Proofs/LoopSimExample.v", "Proofs/DoSimExample.v", "Harness/LoopLib.v"]
 
 
 def gen_programs(ctx, n):
@@ -149,10 +149,10 @@ def conditional_programs(ctx, n):
 
 
 def loop_programs(ctx, n):
-    """functions with while loops at the top level (between declarations, assignments and conditionals): a counter declared before the loop,
+    """functions with while and do loops at the top level (between declarations, assignments and conditionals): a counter declared before the loop,
     a pure condition on it, a body of assignments and nested conditionals that does not assign the counter, the increment last -- the fragment
     of theorem C01_loop_functions_partial"""
-    from nslgen import Module, Global, Func, Arg, Block, Ret, B, V, Decl, ES, A, If, While, I
+    from nslgen import Module, Global, Func, Arg, Block, Ret, B, V, Decl, ES, A, If, While, Do, I
     rng = ctx.rng
     out = []
     for k in range(n):
@@ -191,7 +191,9 @@ def loop_programs(ctx, n):
                 body.append(Decl("int", i, I(0))); env.vars[i] = "int"; counters.add(i)
                 bound = rng.choice([I(2), I(3), B("%", B("*", V("a"), V("a")), I(4)), I(0)])
                 inner = [assign() if rng.random() < 0.6 else cond(1) for _ in range(rng.choice([1, 2]))]
-                body.append(While(B("<", V(i), bound), Block(inner + [ES(A(V(i), B("+", V(i), I(1))))])))
+                lbody = Block(inner + [ES(A(V(i), B("+", V(i), I(1))))])
+                # two loops in five are do loops: the body runs once before the condition is evaluated, also when the bound is 0
+                body.append(Do(lbody, B("<", V(i), bound)) if rng.random() < 0.4 else While(B("<", V(i), bound), lbody))
                 nloops += 1
         rt = rng.choice(["int", "float"]) if k % 3 != 0 else "int"
         body.append(Ret(tg_expr(g, env, rt)))
@@ -285,6 +287,36 @@ def targeted_programs(ctx):
     # signs of / and %
     m = Module([Func("q", [Arg("int", "a"), Arg("int", "b")], "int", Block([Ret(B("+", B("*", B("/", V("a"), V("b")), I(100)), B("%", V("a"), V("b"))))]), export=True)])
     out.append((m, [{"fn": "q", "args": {"a": a_, "b": b_}, "globals": {}, "read_globals": []} for a_, b_ in ((7, 2), (-7, 2), (7, -2), (-7, -2), (1, 3), (-1, 3))]))
+    # arrays of several dimensions as storage: every element is a variable of its own -- write one element, read all of them (local and global
+    # arrays, 2 and 3 dimensions, literal and computed indices); an implementation that shares rows shows the write in the other rows
+    def cells(dims):
+        if not dims:
+            return [[]]
+        return [[i] + r for i in range(dims[0]) for r in cells(dims[1:])]
+    def at(name, idx):
+        e = V(name)
+        for i in idx:
+            e = Idx(e, i if isinstance(i, dict) else I(i))
+        return e
+    for dims in ([2, 3], [3, 2], [2, 2, 2]):
+        for where in ("local", "global"):
+            for computed in (False, True):
+                widx = [V("r"), V("c")] + [I(1)] * (len(dims) - 2) if computed else [dims[0] - 1] + [0] * (len(dims) - 1)
+                body = ([Decl("int", "t", None, dims=dims)] if where == "local" else []) + [ES(A(at("t", widx), V("v")))]
+                if computed:
+                    body.append(ES(A(at("t", [0] * len(dims)), B("+", at("t", [0] * len(dims)), I(5)))))
+                body.append(Decl("int", "s", I(0)))
+                for idx in cells(dims):
+                    body.append(ES(A(V("s"), B("+", B("*", V("s"), I(3)), at("t", idx)))))
+                body.append(Ret(V("s")))
+                m = Module(([Global("int", "t", dims)] if where == "global" else []) +
+                           [Func("f", [Arg("int", "r"), Arg("int", "c"), Arg("int", "v")], "int", Block(body), export=True)])
+                def zeros(ds):
+                    return 0 if not ds else [zeros(ds[1:]) for _ in range(ds[0])]
+                calls = [{"fn": "f", "args": {"r": r_, "c": c_, "v": v_}, "globals": {"t": zeros(dims)} if where == "global" and q == 0 else {},
+                          "read_globals": ["t"] if where == "global" else []}
+                         for q, (r_, c_, v_) in enumerate(((0, 0, 20), (dims[0] - 1, dims[1] - 1, 7), (0, 1, 1)))]
+                out.append((m, calls))
     res = []
     for k, (m, calls) in enumerate(out):
         text, _ = nslgen.render(m, ["canonical", "dense", "wild", "lines"][k % 4], ctx.rng)
@@ -345,7 +377,7 @@ def run(ctx):
     bad_spec, bad_model = [], []
     frag = {"functions": 0, "inside_proved_fragment": 0, "literal_test_passed": 0}
     sfrag = {"functions": 0, "inside_proved_fragment": 0, "literal_test_passed": 0, "lowered_ir_also_in_forwarding_fragment": 0}
-    lfrag = {"functions": 0, "inside_end_to_end_fragment_literals_exact": 0, "of_which_with_a_loop": 0}
+    lfrag = {"functions": 0, "inside_end_to_end_fragment_literals_exact": 0, "of_which_with_a_loop": 0, "of_which_with_a_do_loop": 0}
     ffrag = {"functions": 0, "inside_lowering_fragment": 0, "of_which_with_a_conditional": 0, "inside_end_to_end_fragment_literals_exact": 0}
     for x, c in zip(meta, codes):
         if c is None:
@@ -355,7 +387,8 @@ def run(ctx):
             c = c % 1000
             if fc >= 300000000:
                 fc -= 300000000
-                lfrag["functions"] += fc // 10000; lfrag["inside_end_to_end_fragment_literals_exact"] += (fc // 100) % 100; lfrag["of_which_with_a_loop"] += fc % 100
+                lfrag["functions"] += fc // 1000000; lfrag["inside_end_to_end_fragment_literals_exact"] += (fc // 10000) % 100
+                lfrag["of_which_with_a_loop"] += (fc // 100) % 100; lfrag["of_which_with_a_do_loop"] += fc % 100
             elif fc >= 200000000:
                 fc -= 200000000
                 ffrag["functions"] += fc // 1000000; ffrag["inside_lowering_fragment"] += (fc // 10000) % 100
